@@ -22,6 +22,7 @@
 
 #include <atomic>
 #include <chrono>
+#include <memory>
 #include <mutex>
 #include <thread>
 
@@ -299,6 +300,330 @@ PBT_PROPERTY(lookup)
   auto treeRows = src.rows(80, 6, 0, MAXC);
   auto nameRows = src.rows(240, 12, 0, MAXC);
   runLookupCase(c, cfg, treeRows, nameRows);
+}
+
+// ----------------------------------------------------------------------- mutate_tree
+// One Assets instance, one thread: lookups interleaved with QUIESCENT changes of the tree
+// made by the harness itself (a directory replaced by a symlink to an outside / another
+// inside directory and back, a file replaced by a symlink to a secret / by a new version /
+// removed / recreated, .gz siblings added and removed), with and without reload() in
+// between. Every lookup is judged against the tree as it is at that moment; a caching
+// path may serve a stale copy of an INSIDE file it read since the last reload().
+namespace
+{
+
+struct MutableArea
+{
+  const Tree &t;
+  int r;
+  std::string M; ///< <region root>/m
+  int version = 0;
+  int docsState = 0, subState = 0; ///< 0 real dir, 1 link->outside mirror (abs), 2 link->inside alt, 3 absent, 4 link->outside mirror (rel)
+  bool ok = true;
+
+  MutableArea(const Tree &tt, int rr) : t(tt), r(rr), M(tt.canon[rr] + "/m") {}
+  ~MutableArea() { c20::removeTree(M); }
+
+  std::string fresh()
+  {
+    const int v = version++;
+    return c20::makeContent(c20::regionTag(r), 300000 + 1000 * r + v, v % 5 == 4 ? 5 : 2);
+  }
+  void file(const std::string &p, const std::string &data)
+  {
+    int fd = ::open(p.c_str(), O_CREAT | O_TRUNC | O_WRONLY | O_CLOEXEC, 0644);
+    if (fd < 0) { ok = false; return; }
+    std::size_t off = 0;
+    while (off < data.size())
+    {
+      ssize_t n = ::write(fd, data.data() + off, data.size() - off);
+      if (n <= 0) { ok = false; break; }
+      off += (std::size_t)n;
+    }
+    ::close(fd);
+  }
+  void dir(const std::string &p) { if (::mkdir(p.c_str(), 0755) != 0) ok = false; }
+  void link(const std::string &target, const std::string &p) { if (::symlink(target.c_str(), p.c_str()) != 0) ok = false; }
+
+  /// where the real docs (sub) directory physically is right now
+  std::string realDocs() const { return docsState == 0 ? M + "/docs" : M + "/.stash-docs"; }
+  std::string realSub() const { return subState == 0 ? realDocs() + "/sub" : realDocs() + "/.stash-sub"; }
+
+  void build()
+  {
+    dir(M);
+    dir(M + "/docs");
+    dir(M + "/docs/sub");
+    dir(M + "/alt");
+    dir(M + "/alt/sub");
+    file(M + "/docs/readme.txt", fresh());
+    file(M + "/docs/sub/page.html", fresh());
+    file(M + "/file.txt", fresh());
+    file(M + "/alt/readme.txt", fresh());
+    file(M + "/alt/new.txt", fresh());
+    file(M + "/alt/sub/page.html", fresh());
+    file(M + "/alt/page.html", fresh());
+    link("docs", M + "/lnk");               // inside link that follows whatever docs is
+    link("docs/readme.txt", M + "/flink");
+  }
+
+  /// replace the occupant of a directory slot
+  void setDir(bool isSub, int state)
+  {
+    int &cur = isSub ? subState : docsState;
+    if (state == cur) return;
+    const std::string slot = isSub ? realDocs() + "/sub" : M + "/docs";
+    const std::string stash = isSub ? realDocs() + "/.stash-sub" : M + "/.stash-docs";
+    // remove the occupant
+    if (cur == 0) { if (::rename(slot.c_str(), stash.c_str()) != 0) ok = false; }
+    else if (cur != 3) ::unlink(slot.c_str());
+    // install the new one
+    const std::string mirror = t.C + (isSub ? "/outside/docs/sub" : "/outside/docs");
+    switch (state)
+    {
+    case 0: if (::rename(stash.c_str(), slot.c_str()) != 0) ok = false; break;
+    case 1: link(mirror, slot); break;
+    case 2: link(isSub ? "../alt/sub" : "alt", slot); break; // relative to the directory that holds the link
+    case 3: break;
+    default: link(c20::relPath(isSub ? realDocs() : M, mirror), slot); break;
+    }
+    cur = state;
+  }
+
+  /// replace the occupant of a file slot: 0 new regular version, 1 link -> secret, 2 link -> other inside file, 3 absent,
+  /// 4 link -> sibling-prefix secret, 5 link -> outside mirror file (relative)
+  void setFile(int which, int state)
+  {
+    std::string slot, mirrorName;
+    switch (which)
+    {
+    case 0: slot = M + "/file.txt"; mirrorName = "readme.txt"; break;
+    case 1: slot = realDocs() + "/readme.txt"; mirrorName = "readme.txt"; break;
+    case 2: slot = M + "/file.txt.gz"; mirrorName = "readme.txt.gz"; break;
+    case 3: slot = realDocs() + "/new.txt"; mirrorName = "new.txt"; break;
+    case 4: slot = realDocs() + "/readme.txt.gz"; mirrorName = "readme.txt.gz"; break;
+    default: slot = realSub() + "/page.html"; mirrorName = "sub/page.html"; break;
+    }
+    ::unlink(slot.c_str());
+    auto parent = slot.substr(0, slot.find_last_of('/'));
+    switch (state)
+    {
+    case 0: file(slot, fresh()); break;
+    case 1: link(t.C + "/outside/docs/" + mirrorName, slot); break;
+    case 2: link(M + "/alt/readme.txt", slot); break;
+    case 3: break;
+    case 4: link(t.canon[r] + "-secret", slot); break;
+    default: link(c20::relPath(parent, t.C + "/outside/docs/" + mirrorName), slot); break;
+    }
+  }
+};
+
+const std::vector<std::string> &mutableNames()
+{
+  static const std::vector<std::string> n = {
+    "m/docs/readme.txt", "m/docs/sub/page.html", "m/file.txt", "m/docs/new.txt", "m/lnk/readme.txt", "m/flink", "m/alt/readme.txt",
+    "m/docs/page.html", "m/docs/./readme.txt", "m//docs//readme.txt", "self/m/docs/readme.txt", "m/lnk/sub/page.html", "m/docs/sub/",
+    "m/docs", "m/file.txt.gz", "m/docs/readme.txt.gz", "m/.stash-docs/readme.txt", "m/docs/sub/../readme.txt", "m/docs/sub/new.txt",
+    "m/alt/sub/page.html", "m/docs/.stash-sub/page.html"};
+  return n;
+}
+
+struct MutateOp
+{
+  int kind; ///< 0 lookup, 1 set dir slot, 2 set file slot, 3 reload, 4 re-lookup everything seen so far
+  int a = 0, b = 0, c = 0;
+  std::string name;
+};
+
+void runMutateCase(pbt::Case &c, const Config &cfg, const std::vector<Row> &treeRows, const std::vector<Row> &ops, const std::vector<MutateOp> *fixedOps = nullptr)
+{
+  CaseSink sink(c);
+  Tree t;
+  TreeGuard guard{t};
+  if (!t.buildSkeleton(cfg))
+  {
+    c.inconclusive("scratch tree could not be built: " + t.err);
+    return;
+  }
+  for (const Row &row : treeRows) t.addGenerated(row);
+  const bool embedded = cfg.mode == 2;
+  std::vector<std::unique_ptr<MutableArea>> areas(3);
+  for (int r = 0; r < 3; ++r)
+  {
+    if (embedded != (r == c20::R_EXT)) continue;
+    areas[r] = std::make_unique<MutableArea>(t, r);
+    areas[r]->build();
+    if (!areas[r]->ok)
+    {
+      c.inconclusive("mutable area could not be built");
+      return;
+    }
+  }
+
+  // ---- the history
+  std::vector<MutateOp> hist;
+  if (fixedOps) hist = *fixedOps;
+  for (const Row &row : ops)
+  {
+    MutateOp op;
+    const int k = (int)(row[0] % 16);
+    op.a = (int)(row[1] % 2);
+    if (k < 8)
+    {
+      op.kind = 0;
+      if ((row[2] % 8) == 7)
+      {
+        Row g(row.begin() + 3, row.end());
+        op.name = c20::genName(t, embedded ? (int)c20::R_EXT : op.a, g);
+      }
+      else
+        op.name = mutableNames()[(std::size_t)row[3] % mutableNames().size()];
+    }
+    else if (k < 11)
+    {
+      op.kind = 1;
+      op.b = (int)(row[2] % 4 == 0); // the nested slot docs/sub, or docs itself
+      op.c = (int)(row[3] % 5);
+    }
+    else if (k < 14)
+    {
+      op.kind = 2;
+      op.b = (int)(row[2] % 6);
+      op.c = (int)(row[3] % 6);
+    }
+    else if (k == 14)
+      op.kind = 3;
+    else
+      op.kind = 4;
+    hist.push_back(std::move(op));
+  }
+
+  Embedded emb;
+  std::optional<Assets> assets;
+  try
+  {
+    if (embedded)
+    {
+      emb.extDir = t.extGiven;
+      for (const auto &n : mutableNames()) emb.externalData.push_back(n);
+      for (const auto &op : hist)
+        if (op.kind == 0) emb.externalData.push_back(op.name);
+      emb.finish();
+      assets.emplace(Assets::fromEmbedded(emb.reg));
+    }
+    else
+      assets.emplace(Assets::fromDirectory(t.rootGiven, cfg.mode == 1));
+  }
+  catch (const std::exception &e)
+  {
+    c.fail("C20/config/construction-throws", cfg.text() + ": construction over an existing root directory threw " + e.what());
+    return;
+  }
+
+  std::map<std::pair<int, std::string>, c20::Stale> stale;
+  std::vector<std::pair<int, std::string>> seen;
+  std::string trace;
+  std::uint64_t digest = c20::fnv(cfg.text());
+  std::size_t mutations = 0, lookupsAfterMutation = 0, outsideAfterMutation = 0;
+  static const char *st[] = {"Found", "NotFound", "Rejected"};
+
+  auto lookup = [&](int r, const std::string &name) -> bool
+  {
+    const bool isTemplate = r == c20::R_TEMPL;
+    // which path caches: templates always (template cache), statics in cached mode
+    const bool caching = !embedded && (isTemplate || cfg.mode == 0);
+    NameFacts f = c20::factsFor(t, r, name);
+    c20::Stale *sp = nullptr;
+    if (caching)
+    {
+      sp = &stale[{r, name}];
+      c20::noteCurrent(t, r, name, f, *sp);
+    }
+    LookupResult res = c20::doLookup(*assets, isTemplate, name);
+    trace += std::string(" ") + (isTemplate ? "T'" : "S'") + c20::show(name, 60) + "'=>" + st[res.status];
+    bool ok = c20::judge(t, r, name, res, f, sink, sp, "C20/after-mutation/");
+    if (!ok || c.failed() || c.knownHit()) return false;
+    if (!f.walkOk) c.inconclusive("oracle walker and realpath(3) disagree");
+    c.label(std::string("mutate ") + c20::apiName(r) + ": " + st[res.status]);
+    if (mutations)
+    {
+      ++lookupsAfterMutation;
+      if (f.resolvesOutside && f.w.isReg)
+      {
+        ++outsideAfterMutation;
+        c.label(std::string("mutate: name resolves to an OUTSIDE file after a mutation -> ") + st[res.status]);
+      }
+    }
+    if (std::find(seen.begin(), seen.end(), std::make_pair(r, name)) == seen.end()) seen.emplace_back(r, name);
+    digest = c20::fnv(name, digest * 31 + (std::uint64_t)r);
+    return true;
+  };
+
+  for (const MutateOp &op : hist)
+  {
+    const int r = embedded ? (int)c20::R_EXT : op.a;
+    MutableArea &area = *areas[r];
+    switch (op.kind)
+    {
+    case 0:
+      if (!lookup(r, op.name)) goto failed;
+      break;
+    case 1:
+      area.setDir(op.b != 0, op.c);
+      ++mutations;
+      trace += std::string(" [") + c20::apiName(r) + (op.b ? ": m/docs/sub := " : ": m/docs := ") +
+               (op.c == 0 ? "real dir" : op.c == 1 ? "link->outside dir" : op.c == 2 ? "link->inside alt dir" : op.c == 3 ? "absent" : "rel link->outside dir") + "]";
+      digest = digest * 131 + (std::uint64_t)(op.b * 8 + op.c + 1);
+      break;
+    case 2:
+    {
+      static const char *slots[] = {"m/file.txt", "m/docs/readme.txt", "m/file.txt.gz", "m/docs/new.txt", "m/docs/readme.txt.gz", "m/docs/sub/page.html"};
+      static const char *states[] = {"new regular version", "link->secret", "link->inside file", "absent", "link->sibling-prefix secret", "rel link->secret"};
+      area.setFile(op.b, op.c);
+      ++mutations;
+      trace += std::string(" [") + c20::apiName(r) + ": " + slots[op.b] + " := " + states[op.c] + "]";
+      digest = digest * 131 + (std::uint64_t)(64 + op.b * 8 + op.c);
+      break;
+    }
+    case 3:
+      assets->reload();
+      stale.clear();
+      trace += " [reload]";
+      break;
+    default:
+    {
+      trace += " [again:";
+      auto again = seen; // lookup() appends to seen
+      for (const auto &rn : again)
+        if (!lookup(rn.first, rn.second)) goto failed;
+      trace += "]";
+      break;
+    }
+    }
+    if (!area.ok)
+    {
+      c.inconclusive("a tree mutation failed (scratch file system)");
+      return;
+    }
+  }
+  c.describe(cfg.text() + " history:" + trace);
+  c.label("mutate: histories");
+  if (mutations && lookupsAfterMutation) c.nontrivial(digest);
+  if (outsideAfterMutation) c.label("mutate: history with an escaping name after a mutation");
+  return;
+failed:
+  c.describe(cfg.text() + " history:" + trace + "  <== fails here");
+}
+
+} // namespace
+
+PBT_PROPERTY(mutate_tree)
+{
+  pbt::watchdog(240, "C20/mutate_tree/stalled"); // expected: 5-30 ms
+  Config cfg = drawConfig(src);
+  auto treeRows = src.rows(12, 6, 0, MAXC);
+  auto ops = src.rows(90, 13, 0, MAXC);
+  runMutateCase(c, cfg, treeRows, ops);
 }
 
 // ------------------------------------------------------------------------------ swap
@@ -641,6 +966,42 @@ PBT_REGRESSION(symlink_shapes)
 PBT_REGRESSION(traversal_spellings)
 {
   for (int mode = 0; mode < 3 && !c.failed(); ++mode) runFixed(c, mode, kSpellings);
+}
+// the resolution of a name must not outlive a change of the tree: directory (or leaf, or
+// a missing file) looked up once, then replaced by a link leading outside, looked up again
+PBT_REGRESSION(relookup_after_dir_becomes_outside_link)
+{
+  for (int mode = 0; mode < 3 && !c.failed(); ++mode)
+    for (int variant = 0; variant < 4 && !c.failed(); ++variant)
+    {
+      Config cfg;
+      cfg.mode = mode;
+      std::vector<MutateOp> h;
+      auto L = [&](int r, const char *n) { MutateOp o; o.kind = 0; o.a = r; o.name = n; h.push_back(o); };
+      auto D = [&](int r, int sub, int state) { MutateOp o; o.kind = 1; o.a = r; o.b = sub; o.c = state; h.push_back(o); };
+      auto F = [&](int r, int slot, int state) { MutateOp o; o.kind = 2; o.a = r; o.b = slot; o.c = state; h.push_back(o); };
+      for (int r = 0; r < 2; ++r)
+      {
+        switch (variant)
+        {
+        case 0: // file present at the first lookup, docs := link -> outside mirror
+          L(r, "m/docs/readme.txt"); L(r, "m/docs/sub/page.html"); D(r, 0, 1); L(r, "m/docs/readme.txt"); L(r, "m/docs/sub/page.html");
+          D(r, 0, 0); L(r, "m/docs/readme.txt");
+          break;
+        case 1: // file absent at the first lookup (NotFound), present in the outside mirror
+          L(r, "m/docs/new.txt"); D(r, 0, 4); L(r, "m/docs/new.txt"); L(r, "m/lnk/new.txt");
+          break;
+        case 2: // nested directory and inside alt directory
+          L(r, "m/docs/sub/page.html"); D(r, 1, 2); L(r, "m/docs/sub/page.html"); D(r, 1, 1); L(r, "m/docs/sub/page.html"); L(r, "m/lnk/sub/page.html");
+          break;
+        default: // leaf and .gz sibling
+          L(r, "m/file.txt"); F(r, 2, 0); L(r, "m/file.txt"); F(r, 0, 1); L(r, "m/file.txt"); F(r, 0, 0); F(r, 2, 1); L(r, "m/file.txt");
+          F(r, 2, 5); L(r, "m/file.txt"); F(r, 0, 5); L(r, "m/file.txt");
+          break;
+        }
+      }
+      runMutateCase(c, cfg, {}, {}, &h);
+    }
 }
 PBT_REGRESSION(swap_leaf_per_request)
 {
